@@ -485,7 +485,7 @@ def geometry_part(run, bulk, np):
             bulk.uset2bulk(f, ut)
             txt = f.getvalue()
             u2, _cr = bulk.bulk2uset(io.StringIO(txt))
-            if list(u2.index) != list(ut.index) or u2.shape != ut.shape or not np.allclose(u2.values.astype(float), ut.values.astype(float), atol=1e-7):
+            if list(u2.index) != list(ut.index) or u2.shape != ut.shape or not np.allclose(u2.values.astype(float), ut.values.astype(float), atol=1e-6):   # 9 digits on A, B, C (|.| <= 30) through the axes
                 run.violation("uset2bulk/bulk2uset: USET table read back differs (grid order, locations or transforms)",
                               dict(ucase, text=txt), {"fn": "uset2bulk"})
             f = io.StringIO()
@@ -496,7 +496,7 @@ def geometry_part(run, bulk, np):
                     continue
                 want = ut.iloc[6 * k + 1:6 * k + 6, 1:4].values.astype(float)
                 got = back.get(b_) if isinstance(back, dict) else None
-                if got is None or not np.allclose(np.asarray(got), want, atol=1e-7):
+                if got is None or not np.allclose(np.asarray(got), want, atol=1e-6):
                     run.violation("mkcordcardinfo/wtcoordcards/rdcord2cards: system %d read back differs from the one in the USET table" % b_,
                                   dict(ucase, text=f.getvalue(), got=str(got), want=want.tolist()), {"fn": "wtcoordcards"})
                     break
